@@ -61,33 +61,36 @@ theorem meanOf_perm {obs₁ obs₂ : List (L × Row K)} (h : obs₁.Perm obs₂)
 
 /-- Gram-matrix form of the Euclidean estimator = squared distance / number of channels -/
 theorem euclid_algo_eq_spec (P : Nat) (M : List (Row K)) :
-    (extractTriu (euclidMat P M)).map (· / (P : K)) =
+    (extractTriu (euclidMat P M)).map (fun x => Rsa.Gen.C01.euclidNorm x P) =
       (pairsOf M).map (fun p => euclidSpec P p.1 p.2) := by
   unfold euclidMat
   rw [extractTriu_map, List.map_map]
   apply List.map_congr_left
   intro p _
+  simp only [Function.comp_apply, Rsa.Gen.C01.euclidEntry, Rsa.Gen.C01.euclidNorm]
   exact euclid_entry P p.1 p.2
 
 /-- kernel form of the Mahalanobis estimator = `(a-b)ᵀ N (a-b) / P`, for symmetric `N` -/
 theorem mahal_algo_eq_spec (P : Nat) (N : Nat → Nat → K) (hN : ∀ i j, N i j = N j i)
     (M : List (Row K)) :
-    (extractTriu (mahalMat P N M)).map (· / (P : K)) =
+    (extractTriu (mahalMat P N M)).map (fun x => Rsa.Gen.C01.mahalNorm x P) =
       (pairsOf M).map (fun p => mahalSpec P N p.1 p.2) := by
   unfold mahalMat
   rw [extractTriu_map, List.map_map]
   apply List.map_congr_left
   intro p _
+  simp only [Function.comp_apply, Rsa.Gen.C01.mahalEntry, Rsa.Gen.C01.mahalNorm]
   exact mahal_entry P N hN p.1 p.2
 
 /-- kernel form of the Poisson estimator = `Σ (λa-λb)(lg λa - lg λb) / P`, for every `lg` -/
 theorem poisson_algo_eq_spec (P : Nat) (lg : K → K) (M : List (Row K)) :
-    (extractTriu (poissonMat P lg M)).map (· / (P : K)) =
+    (extractTriu (poissonMat P lg M)).map (fun x => Rsa.Gen.C01.poissonNorm x P) =
       (pairsOf M).map (fun p => poissonSpec P lg p.1 p.2) := by
   unfold poissonMat
   rw [extractTriu_map, List.map_map]
   apply List.map_congr_left
   intro p _
+  simp only [Function.comp_apply, Rsa.Gen.C01.poissonEntry, Rsa.Gen.C01.poissonNorm]
   exact poisson_entry P lg p.1 p.2
 
 /-- centre / normalise / `1 - M Mᵀ` = `1 -` Pearson correlation -/
@@ -98,6 +101,7 @@ theorem corr_algo_eq_spec (P : Nat) (hP : 0 < P) (sqrt : K → K) (hs : IsSqrt s
   rw [extractTriu_map, pairsOf_map, List.map_map]
   apply List.map_congr_left
   intro p _
+  simp only [Function.comp_apply, Rsa.Gen.C01.corrEntry, Nat.cast_one]
   exact corr_entry P hP sqrt hs p.1 p.2
 
 /-- the regularisation leaf translated from the source is `(m + λ₀ w)/(1 + w)` -/
@@ -119,7 +123,7 @@ theorem distVec_eq_spec (P : Nat) (sqrt lg : K → K) (m : Method K) (hm : Metho
   | euclidean =>
     cases rm <;>
       simp [distVec, distSpec, prep, euclid_algo_eq_spec, pairsOf_map, List.map_map,
-        Function.comp_def]
+        Function.comp_def, centreC_eq]
   | correlation =>
     simp only [distVec, distSpec]
     exact corr_algo_eq_spec P hm.1 sqrt hm.2 M
@@ -128,11 +132,11 @@ theorem distVec_eq_spec (P : Nat) (sqrt lg : K → K) (m : Method K) (hm : Metho
     | none =>
       cases rm <;>
         simp [distVec, distSpec, prep, euclid_algo_eq_spec, pairsOf_map, List.map_map,
-          Function.comp_def]
+          Function.comp_def, centreC_eq]
     | some N =>
       cases rm <;>
         simp [distVec, distSpec, prep, mahal_algo_eq_spec P N hm, pairsOf_map, List.map_map,
-          Function.comp_def]
+          Function.comp_def, centreC_eq]
   | poisson pl pw =>
     simp only [distVec, distSpec]
     rw [poisson_algo_eq_spec, pairsOf_map, List.map_map]
@@ -419,6 +423,98 @@ theorem calcRdmList_entry (P : Nat) (sqrt lg : K → K) (le : L → L → Bool)
         (fun a b => distSpec_symm P sqrt lg m rm _ _) hidx h1 h2
     · rw [if_neg hc, if_neg (fun h => hc ⟨(hmem _).mpr h.1, (hmem _).mpr h.2⟩)]
 
+/-- supplying a dataset singly or as a one-element list changes nothing: same labels,
+    same values, nothing missing. -/
+theorem calcRdmList_singleton (P : Nat) (sqrt lg : K → K) (le : L → L → Bool)
+    (htrans : ∀ a b c, le a b → le b c → le a c) (htotal : ∀ a b, le a b || le b a)
+    (m : Method K) (hm : MethodOK P sqrt m) (rm : Bool) (ds : List (L × Row K)) :
+    calcRdmList P sqrt lg le [m] rm [ds] =
+      ((calcRdm (D := Unit) P sqrt lg le m rm ds []).labels,
+       [(calcRdm (D := Unit) P sqrt lg le m rm ds []).vec.map some]) := by
+  obtain ⟨_, _, hnd, hmem, hvec⟩ :=
+    calcRdm_correct (D := Unit) P sqrt lg le htrans htotal m hm rm ds []
+  obtain ⟨_, _, hlen, hent⟩ := calcRdmList_entry P sqrt lg le htrans htotal [m]
+    (fun m' hm' => by rw [List.mem_singleton.mp hm']; exact hm) rm [ds]
+  have h1 : (calcRdmList P sqrt lg le [m] rm [ds]).1 =
+      (calcRdm (D := Unit) P sqrt lg le m rm ds []).labels := by
+    show uniqueFirst (List.flatMap _ [calcRdm (D := Unit) P sqrt lg le m rm ds []]) = _
+    simp only [List.flatMap_cons, List.flatMap_nil, List.append_nil]
+    exact uniqueFirst_of_nodup hnd
+  have h0 := hent 0 m ds rfl
+  have hl : (calcRdmList P sqrt lg le [m] rm [ds]).2.length = 1 := by simpa using hlen
+  have h2 : (calcRdmList P sqrt lg le [m] rm [ds]).2 =
+      [(calcRdm (D := Unit) P sqrt lg le m rm ds []).vec.map some] := by
+    match hx : (calcRdmList P sqrt lg le [m] rm [ds]).2, hl with
+    | [x], _ =>
+      rw [hx] at h0
+      simp only [List.getElem?_cons_zero, Option.some.injEq] at h0
+      rw [h0, h1, hvec, List.map_map]
+      congr 1
+      apply List.map_congr_left
+      intro p hp
+      obtain ⟨hp1, hp2⟩ := mem_pairsOf hp
+      simp [(hmem p.1).mp hp1, (hmem p.2).mp hp2]
+  exact Prod.ext h1 h2
+
+/-- `from_partials`: every expanded vector has the length the source computes
+    (`int(n_patterns * (n_patterns-1) / 2)`, translated leaf) for the union of the labels. -/
+theorem fromPartials_length {α : Type} [Zero α] (rs : List (Rdm α L D)) :
+    ∀ v ∈ (fromPartials rs).2, v.length = Rsa.Gen.C01.vectorLen (fromPartials rs).1.length := by
+  intro v hv
+  simp only [fromPartials, List.mem_map] at hv
+  obtain ⟨r, _, rfl⟩ := hv
+  simp [fromPartials, Rsa.Gen.C01.vectorLen, pairsOf_length]
+
+/-- lookup in a list built from its own keys -/
+theorem lookup_map_self {V : Type} (us : List String) (f : String → V) (n : String) :
+    (us.map (fun m => (m, f m))).lookup n = if n ∈ us then some (f n) else none := by
+  induction us with
+  | nil => simp
+  | cons u us ih =>
+    simp only [List.map_cons, List.lookup_cons, List.mem_cons]
+    by_cases h : n = u
+    · subst h; simp
+    · have : (n == u) = false := by simpa using h
+      rw [this, ih]
+      simp [h]
+
+theorem mem_keys_of_lookup {V : Type} {d : List (String × V)} {n : String} {v : V}
+    (h : d.lookup n = some v) : n ∈ d.map (fun p => p.1) := by
+  induction d with
+  | nil => simp at h
+  | cons p ps ih =>
+    rw [List.lookup_cons] at h
+    by_cases e : n = p.1
+    · simp [e]
+    · have : (n == p.1) = false := by simpa using e
+      rw [this] at h
+      exact List.mem_cons_of_mem _ (ih h)
+
+/-- the dataset's descriptors are attached to the right RDM of the stack: every column of
+    the merged rdm descriptors has one entry per dataset, entry `k` is dataset `k`'s own
+    value (`none` if it has none), and every descriptor of dataset `k` has a column. -/
+theorem mergeRdmDescs_spec {V : Type} (dss : List (List (String × V))) (k : Nat)
+    (d : List (String × V)) (hk : dss[k]? = some d) (n : String) :
+    (∀ col, (mergeRdmDescs dss).lookup n = some col →
+      col.length = dss.length ∧ col[k]? = some (d.lookup n)) ∧
+    (∀ v, d.lookup n = some v →
+      ∃ col, (mergeRdmDescs dss).lookup n = some col ∧ col[k]? = some (some v)) := by
+  unfold mergeRdmDescs
+  rw [lookup_map_self]
+  constructor
+  · intro col hcol
+    split at hcol
+    · simp only [Option.some.injEq] at hcol
+      subst hcol
+      simp [hk]
+    · simp at hcol
+  · intro v hv
+    have hmem : n ∈ uniqueFirst (dss.flatMap (fun d => d.map (fun p => p.1))) := by
+      rw [mem_uniqueFirst, List.mem_flatMap]
+      exact ⟨d, List.mem_of_getElem? hk, mem_keys_of_lookup hv⟩
+    rw [if_pos hmem]
+    exact ⟨_, rfl, by simp [hk, hv]⟩
+
 /-! ### movies -/
 
 variable {τ : Type} [DecidableEq τ] [Add τ] [Zero τ] [Div τ] [NatCast τ]
@@ -451,6 +547,35 @@ theorem movie_eq_stack (P : Nat) (sqrt lg : K → K) (le : L → L → Bool) (m 
     exact List.map_congr_left key
   · intro bins
     rfl
+
+/-- general time descriptors (values may repeat): there is one frame per distinct time
+    value, in order of first appearance; its dataset consists of the slices at exactly the
+    time indices carrying that value (all observations of the first such index, then of
+    the next, …), and the frame is `calc_rdm` of that dataset. -/
+theorem movie_frames_general (P : Nat) (sqrt lg : K → K) (le : L → L → Bool) (m : Method K)
+    (obs : List (L × TRow K)) (times : List τ) :
+    calcMovie (D := D) P sqrt lg le m obs times none =
+      (uniqueFirst times).map (fun v =>
+        (v, calcRdm P sqrt lg le m false ((selTimes times v).flatMap (timeSlice obs)) [])) ∧
+    (∀ v t, t ∈ selTimes times v ↔ times[t]? = some v) ∧
+    (∀ v, (selTimes times v).Pairwise (· < ·)) := by
+  refine ⟨?_, ?_, ?_⟩
+  · show (frames obs times).map _ = _
+    unfold frames
+    rw [List.map_map]
+    rfl
+  · intro v t
+    unfold selTimes
+    simp only [List.mem_map, List.mem_filter, decide_eq_true_eq, Prod.exists,
+      exists_eq_right]
+    exact List.mem_zipIdx_iff_getElem?
+  · intro v
+    unfold selTimes
+    have hs : (times.zipIdx.map (fun p => p.2)).Pairwise (· < ·) := by
+      have := List.zipIdx_map_snd 0 times
+      rw [show (times.zipIdx.map fun p => p.2) = List.range' 0 times.length from this]
+      exact List.pairwise_lt_range'
+    exact hs.sublist (List.filter_sublist.map _)
 
 /-- `bin_time`: a binned slice is the mean over exactly the bin's time points (those whose
     time value lies in the bin), and the binned time is the mean of their time values. -/
